@@ -26,8 +26,8 @@ RULE = (
     "output precedence, no reaction to events afterwards; distinct_nontrivial = distinct canonical states"
 )
 BOUNDS = {
-    "quick": "final-state trees of TREE(N<=4) x decorations x {sync, async}",
-    "thorough": "final-state trees of TREE(N<=5) x decorations x {sync, async}",
+    "quick": "final-state trees of TREE(N<=4) + 9 nested-parallel completion skeletons C(C(P(s1,s2),F),A) x decorations x {sync, async}",
+    "thorough": "final-state trees of TREE(N<=5) + 23 nested-parallel completion skeletons x decorations x {sync, async}",
 }
 ASSUMPTIONS = [
     "strict reading: a compound state's onDone is due only when one of its own children that is a final state "
@@ -52,7 +52,7 @@ def eligible(nodes: List[F.N]) -> List[F.N]:
 def units(tier: str) -> List[Any]:
     n = 4 if tier == "quick" else 5
     out = []
-    for t in F.trees_upto(n):
+    for t in list(F.trees_upto(n)) + F.done_skeletons(tier):
         if "F" not in F.tree_kinds(t):
             continue
         nodes = F.flatten(t)
